@@ -75,9 +75,17 @@ def props_theorems(prop: str):
     if not os.path.exists(path):
         return []
     src = strip_comments(open(path).read())
-    ns = re.search(r"^namespace\s+(\S+)", src, re.M)
-    prefix = ns.group(1) + "." if ns else ""
-    return [prefix + m for m in re.findall(r"^theorem\s+([A-Za-z_][\w']*)", src, re.M)]
+    out, stack = [], []
+    for m in re.finditer(r"^(namespace|end|theorem)\s+([A-Za-z_][\w'.]*)", src, re.M):
+        kw, name = m.group(1), m.group(2)
+        if kw == "namespace":
+            stack.append(name)
+        elif kw == "end":
+            if stack and stack[-1] == name:
+                stack.pop()
+        else:
+            out.append(".".join(stack + [name]))
+    return out
 
 
 def lean_sources_for(prop: str, targets=None):
@@ -126,9 +134,35 @@ def write_replay(prop, name, payload):
     d = os.path.join(VERIF, "replays")
     os.makedirs(d, exist_ok=True)
     path = os.path.join(d, f"{prop}_{name}.json")
+    try:
+        text = json.dumps(payload, indent=1, sort_keys=True, default=str)
+    except Exception:  # noqa: BLE001  (keys of mixed types, cycles): keep the replay readable anyway
+        text = json.dumps({"unserialisable_payload": repr(payload)[:20000]}, indent=1)
     with open(path, "w") as fh:
-        json.dump(payload, fh, indent=1, sort_keys=True, default=str)
+        fh.write(text)
     return path
+
+
+class Infrastructure(Exception):
+    """the machinery could not run (killed compiler, full disk, a library name the harness cannot resolve): exit 2, never a verdict"""
+
+
+LEAN_ERROR = re.compile(r"^error: .*(Verif/|Main\.lean)|(Verif/\S+|Main)\.lean:\d+:\d+: error", re.M)
+
+
+def lake_build(targets, timeout):
+    """(ok, output).  A failed build is a broken proof obligation only when Lean reports an error in one of the project's files
+    (the model or a proof no longer checks against the regenerated facts); a build that dies for another reason (compiler killed,
+    disk, lock) is retried once and then reported as an infrastructure failure"""
+    out = ""
+    for attempt in range(2):
+        rc, out = sh(["lake", "build"] + list(targets), cwd=LEAN, timeout=timeout)
+        if rc == 0:
+            return True, out
+        if LEAN_ERROR.search(out):
+            return False, out
+        time.sleep(2)
+    raise Infrastructure("lake build " + " ".join(targets) + " failed without a Lean error in the project's files: " + out[-600:])
 
 
 def build_and_audit(prop, mod, ctx, evidence):
@@ -138,10 +172,11 @@ def build_and_audit(prop, mod, ctx, evidence):
     rc, out = sh(["/venv/bin/python", os.path.join(HERE, "translate.py")])
     evidence["translate"] = out.strip().splitlines()[-1] if out.strip() else ""
     if rc != 0:
+        if "HarnessUnresolved" in out or "MemoryError" in out or "No space left" in out:
+            raise Infrastructure("translator could not observe the code: " + out[-400:])
         broken.append("translator failed: " + out[-400:])
     # 2. driver + model
-    rc, out = sh(["lake", "build", "driver"], cwd=LEAN, timeout=1800)
-    driver_ok = rc == 0
+    driver_ok, out = lake_build(["driver"], 1800)
     if not driver_ok:
         broken.append("lake build driver failed (model no longer compiles against regenerated Generated/*): " + out[-800:])
     # 3. property theorems
@@ -150,8 +185,8 @@ def build_and_audit(prop, mod, ctx, evidence):
     thms = []
     for t in targets:
         thms += props_theorems(t.split(".")[-1]) if t.startswith("Verif.Props.") else []
-    rc, out = sh(["lake", "build"] + targets, cwd=LEAN, timeout=3600)
-    if rc != 0:
+    built, out = lake_build(targets, 3600)
+    if not built:
         proofs_ok = False
         errs = [l for l in out.splitlines() if "error" in l][:8]
         broken.append("lake build " + " ".join(targets) + " failed: " + " | ".join(errs))
@@ -168,13 +203,17 @@ def build_and_audit(prop, mod, ctx, evidence):
             for th in thms:
                 fh.write(f"#print axioms {th}\n")
         rc, out = sh(["lake", "env", "lean", f], cwd=LEAN, timeout=1800)
+        if rc != 0 and "error" not in out:
+            rc, out = sh(["lake", "env", "lean", f], cwd=LEAN, timeout=1800)
+            if rc != 0 and "error" not in out:
+                raise Infrastructure("axiom audit could not run: " + out[-400:])
         if rc != 0:
             proofs_ok = False
             broken.append("axiom audit failed to run: " + out[-400:])
         else:
-            for m in re.finditer(r"'([^']+)' depends on axioms: \[([^\]]*)\]", out):
+            for m in re.finditer(r"^'(.+)' depends on axioms: \[([^\]]*)\]", out, re.M):
                 axioms_seen[m.group(1)] = [a.strip() for a in m.group(2).replace("\n", " ").split(",") if a.strip()]
-            for m in re.finditer(r"'([^']+)' does not depend on any axioms", out):
+            for m in re.finditer(r"^'(.+)' does not depend on any axioms", out, re.M):
                 axioms_seen[m.group(1)] = []
             for th in thms:
                 ax = axioms_seen.get(th)
@@ -202,6 +241,8 @@ def build_and_audit(prop, mod, ctx, evidence):
 
 def leanchecker(targets, evidence, broken):
     rc, out = sh(["lake", "env", "leanchecker"] + targets, cwd=LEAN, timeout=3600)
+    if rc != 0:  # once more: a re-checker killed for memory is not a rejection
+        rc, out = sh(["lake", "env", "leanchecker"] + targets, cwd=LEAN, timeout=3600)
     evidence["leanchecker"] = "ok" if rc == 0 else "FAILED"
     if rc != 0:
         broken.append("leanchecker rejected the compiled proofs: " + out[-400:])
@@ -218,8 +259,9 @@ def main():
     t0 = time.time()
     try:
         mod = importlib.import_module(f"p_{prop.lower()}")
-    except ImportError as e:
-        print(f"no check module for {prop}: {e}")
+    except Exception as e:  # noqa: BLE001
+        traceback.print_exc()
+        print(f"infrastructure: cannot load the check module for {prop}: {type(e).__name__}: {e}")
         return 2
     ctx = Ctx(prop, args.tier, args.seed)
 
@@ -229,11 +271,20 @@ def main():
 
     cov = {}
     try:
-        driver_ok, proofs_ok, broken = build_and_audit(prop, mod, ctx, cov)
-        if args.tier == "thorough" and proofs_ok:
-            leanchecker(getattr(mod, "LEAN_TARGETS", [f"Verif.Props.{prop}"]), cov, broken)
+        # one check at a time regenerates Generated/* and builds (concurrent checks would race on the generated files and on .lake)
+        import fcntl
+
+        os.makedirs(os.path.join(LEAN, ".lake"), exist_ok=True)
+        with open(os.path.join(LEAN, ".lake", "verif-build.lock"), "w") as lock:
+            fcntl.flock(lock, fcntl.LOCK_EX)
+            driver_ok, proofs_ok, broken = build_and_audit(prop, mod, ctx, cov)
+            if args.tier == "thorough" and proofs_ok:
+                leanchecker(getattr(mod, "LEAN_TARGETS", [f"Verif.Props.{prop}"]), cov, broken)
         ctx.driver_ok = driver_ok
         report = mod.run(ctx)
+    except Infrastructure as e:
+        print(f"infrastructure: {e}")
+        return 2
     except subprocess.TimeoutExpired as e:
         print(f"infrastructure: timeout {e}")
         return 2
@@ -308,8 +359,14 @@ def main():
         "violations": n_viol,
     }
     os.makedirs(os.path.join(VERIF, "evidence"), exist_ok=True)
+    try:
+        text = json.dumps(ev, indent=1, sort_keys=True, default=str)
+    except Exception:  # noqa: BLE001
+        ev["coverage"]["samples"] = []
+        ev["coverage"]["histogram"] = {str(k): v for k, v in (coverage.get("histogram") or {}).items()}
+        text = json.dumps(ev, indent=1, default=str)
     with open(os.path.join(VERIF, "evidence", f"{prop}.json"), "w") as fh:
-        json.dump(ev, fh, indent=1, sort_keys=True, default=str)
+        fh.write(text)
     for l in lines:
         print(l)
     print(f"{prop} tier={args.tier} seed={args.seed}: obligations={coverage.get('obligations')} discharged={coverage.get('discharged')} "
